@@ -32,6 +32,7 @@ func c17Prog(r *Rng, idx int) *Prog {
 					o.Suggested = []string{"sugb", "suga", "other", "su"}
 				case 1:
 					o.Valid = []string{"vala", "valb", "vx"}
+					o.ValidSplit = o.ID%2 == 1
 				case 2:
 					o.SuggFn = []string{"dynb", "dyna", "sugz"}
 				case 3:
@@ -110,6 +111,14 @@ func c17LastWord(r *Rng, n *Node, pay *Payloads) (string, string) {
 		}
 		return "-", "dash"
 	case 6:
+		if r.Bool() && len(keys) > 0 {
+			// three or more dashes: the typed text is `-...`, no declared name starts with that
+			k := r.Pick(keys)
+			if k != "-" {
+				rs := Runes(k)
+				return r.Pick([]string{"---", "----"}) + strings.Join(rs[:r.Range(0, len(rs))], ""), "option-prefix-three-dashes"
+			}
+		}
 		return "--" + r.Pick([]string{"x", "zz", "q9"}), "option-prefix-nomatch"
 	case 7, 8:
 		if len(withVals) > 0 {
